@@ -26,13 +26,13 @@ from gen import enums
 
 META = {
     "technique": "Lean 4 proofs over a hand model of mj_SAP / mj_broadphase / the mj_collision pair loop that calls the c2lean-generated filter kernels (sweep invariant by induction over the sorted endpoint list using C22 stability; merge-by-signature loop invariant; set equality with an independently transcribed brute-force rule set) + bitwise translation validation of the filter kernels + exact differential of the compiled model with the file-static mj_SAP/bfsort/contactSort + scene replay tie of the broad phase and of the narrow-phase candidate sequence on the unmodified engine + brute-force property oracle on mj_collision",
-    "text": "",
-    "note": "",
+    "text": "Proved in Lean 4 (no sorry/axiom) about the hand model of engine_collision_driver.c, for every number of boxes/bodies/geoms: (1) sap_complete: for any box list with distinct ids, any comparator that is a total preorder (SAPcmp on non-NaN floats) and xlo<=xhi, mj_SAP (endpoint buffer [min0,max0,min1,...], the C22 stable-sort model, the active-list sweep with memmove removal, the four y/z tests) outputs the ordered pair (i,j) of an earlier box i and a later box j iff the y/z tests pass and xlo_i <= xlo_j < xhi_i, and (j,i) iff xlo_j < xlo_i <= xhi_j (comparisons on the float-cast values); every output pair consists of two different boxes; no pair is output twice or in both orientations (exactly once); corollaries sap_no_drop (strictly overlapping cast intervals are always reported), sap_sound (reported pairs overlap as closed intervals), sap_touching (cast intervals that only touch are reported iff the LEFT box has the HIGHER index -- the behaviour behind the reported finding), mjSAP_all (return value / buffer when maxpair suffices). The proof is an induction over the sorted endpoint list with an active-list invariant and uses stability + sortedness of mjSORT from C22 to translate positions into value comparisons. (2) filters_match_spec and the kernel theorems, about the definitions c2lean regenerates from the C source on every run: filterBitmask = 0 iff (contype1 & conaffinity2) || (contype2 & conaffinity1); filterBodyPair != 0 iff same weld / both dofless / both asleep / asleep vs world-welded / parent-child with both welds non-world and the filter enabled, and it is symmetric; over the reals filterBox = 0 iff the boxes inflated by margin meet on all three axes, filterSphere = 0 iff dist <= bound (bound >= 0), filterSphereBox likewise; the model's calls of these kernels decide exactly filter 3 / filter 4 / exclude of the independently transcribed rule set Spec/Collide.lean. (3) broadphase_exact: when the modelled mj_broadphase returns, its output is sorted by signature and is exactly the add_pair-compatible ordered versions of the init-loop pairs and of the SAP pairs that pass filterBodyPair. (4) driver_eq_bruteforce_partial: for a well-formed model (compiler invariants WF, validated on every generated scene) the pair loop of mj_collision (signature de-duplication, merge of explicit pairs by signature with the merged flag and the [startadr,pairadr) window, canCollide2, exclude scan, single-geom / all-to-all dispatch, filterCollisionPair, type-ordered push) is sound (every dynamic candidate is selected by the documented rule set) and complete (every selected pair whose geoms are `close` is a candidate, given broad-phase completeness for close pairs), and explicit pair k is a candidate iff collision is enabled and it passes the function-table and sphere tests with its own margin, regardless of bitmasks, body relation or excludes; loop invariant by induction over the sorted broad-phase list. (5) contact_order_deterministic: contactcompare is a total preorder, so by C22 contactSort returns a permutation sorted by key in which the contacts of every key keep their generation order: the sorted order is a function of the input list. Non-vacuity: concrete box set / model instances satisfy all hypotheses and the theorems are instantiated on them.",
+    "note": "Model boundaries (stated, not hidden): makeAAMM (the AAMMs are an input; in the tie they are produced by the real static makeAAMM with the frame captured from the real mj_broadphase), mj_filterSphere (its outcomes `near`/`nearPair` are inputs produced by the real static function), the mjCOLLISIONFUNC table, the BVH traversal mj_collideTree / mj_collideOBB (a mid-phase body pair is represented by its all-to-all candidate superset; the tie checks that every real mid-phase call lies in that set, the oracle checks that mid-phase on/off give the same active contacts), flexes, sleeping, mjcb_contactfilter, the packing of ids into 16-bit halves (exact for nbody <= 65536). driver_eq_bruteforce is therefore named _partial: completeness assumes BroadComplete (AAMM geometry), which is checked on every scene with close := `the collider called directly reports a contact`. Reals vs doubles: filterBox/filterSphere theorems are over the reals; their translation is validated bitwise on Float. Oracle tolerance: none needed (set/sequence/bit-pattern comparisons; the brute force calls the same collision functions with the documented margin). Gap band: the engine inflates AAMMs by margin+gap but passes margin only at inner BVH nodes and 0.5*o_margin without gap under the override flag, so the oracle demands presence only for pairs closer than margin (strict set) and absence only for pairs the collider rejects with margin+gap (loose set). The order of the contact list with mid-phase differs from the order without it (contactcompare's un-swap of type-ordered geoms is dead code because the stored geoms are already type-ordered), contrary to the code comment; only determinism is claimed and checked (repeat, different mjData history). GENUINE DEFECTS reported under stable keys: (1) c14:broadphase-buffer-full-duplicate-pairs -- mj_broadphase adds a (dof-less plane body, dynamic body) pair twice (init loop + SAP) while mj_collision sizes the buffer nbodyflex*(nbodyflex-1)/2, so valid models (world plane + one mocap plane body + two free spheres near its centre) make mj_collision call mju_error('add_pair: broadphase buffer full'); the Lean model reproduces the error; (2) c14:sap-float32-touching-interval-dropped -- mj_SAP compares (float)-cast endpoints and resolves ties by buffer order, so a pair whose AAMMs overlap by less than one float32 ulp is dropped when the left body has the lower id and kept otherwise: two spheres penetrating by 1e-9 (1e-6 at x~100) get no contact in one body order and a contact in the other (theorem sap_touching is the model-side counterpart). Observation outside this property (reported to the coordinator): an explicit pair between two static geoms yields a contact that mj_island rejects with mju_error('contact N is between two static bodies').",
 }
 
 P = "MjProof.C14."
 THEOREMS = [P + t for t in (
-    "sap_complete", "sap_no_drop", "sap_sound", "sap_touching", "mjSAP_all", "yzPrune_comm", "cmpInt_totalPreorder",
+    "sap_complete", "sap_no_drop", "sap_sound", "sap_touching", "mjSAP_all", "sap_never_truncated", "yzPrune_comm", "cmpInt_totalPreorder",
     "filterBitmask_spec", "filterBodyPair_spec", "filterBodyPair_symm", "filterBox_spec", "filterSphere_spec",
     "filterSphere_keep_iff", "filterSphereBox_spec",
     "filters_match_spec", "broadphase_exact", "driver_eq_bruteforce_partial", "exM_wf", "exM_broad",
@@ -311,7 +311,7 @@ def gen_scene(rng, big=False):
             nj = 2 if rng.random() < 0.2 else 1
             for _ in range(nj):
                 j = nh()
-                jt = rng.choice(("hinge", "hinge", "slide", "ball"))
+                jt = rng.choice(("hinge", "hinge", "slide", "ball") if nj == 1 else ("hinge", "slide"))
                 L.append("joint %d %d" % (j, b))
                 L.append("set %d type %d" % (j, enums.E("mjJNT_" + jt.upper())))
                 L.append("set %d pos %s" % (j, fmt([rng.uniform(-0.2, 0.2) for _ in range(3)])))
@@ -587,10 +587,16 @@ def check_hypotheses(j, mout):
             if b == 0:
                 return j["body_geomnum"][0] > 0
             return dof[w[b]] == 0 and any(gt[g] == PLANE for g in range(ng) if gb[g] == b)
+        ov = bool(j["enable"] & E_OVERRIDE)
         for row in j["brute"]:
-            g1, g2 = row[0], row[1]
+            g1, g2, _, mind, mg = row
             b1, b2 = gb[g1], gb[g2]
             if b1 == 0 or b2 == 0 or b1 == b2:
+                continue
+            # close := the collider reports a contact closer than the margin (contacts in the gap band [margin, margin+gap) are
+            # inactive; the engine inflates AAMMs by 0.5*o_margin without the gap under the override flag: see META note)
+            margin = j["o_margin"] if ov else j["geom_margin"][g1] + j["geom_margin"][g2]
+            if not (mind < margin or mg == margin):
                 continue
             # only pairs whose bodies can be in the SAP list at all (collidable) matter for BroadComplete as used
             if not (j["body_contype"][b1] or j["body_conaffinity"][b1]) or not (j["body_contype"][b2] or j["body_conaffinity"][b2]):
@@ -769,6 +775,78 @@ def run_harness_scenes(ctx, impl, blocks):
     return res
 
 
+def gen_blocks(rng, nscene, nstates, directed):
+    blocks, meta = [], []
+    if directed:
+        for kind, what, L in directed_scenes():
+            blocks.append(["model"] + L + ["end", "flags 0 0", "run"])
+            meta.append({"kind": kind, "what": what, "lines": L})
+    for s in range(nscene):
+        sc = gen_scene(rng, big=(s % 7 == 0))
+        states = [scene_state(rng, sc) for _ in range(nstates)]
+        fl = [(sc.disable & ~D_MIDPHASE, sc.enable), (sc.disable | D_MIDPHASE, sc.enable)]
+        blocks.append(scene_block(sc.lines, states, fl))
+        meta.append({"kind": "random", "what": "generated scene %d" % s, "lines": sc.lines, "states": states, "flags": fl})
+    return blocks, meta
+
+
+def judge_scenes(ctx, results, meta, fail, stats):
+    """Property oracle over the harness results; returns the model-side op lines (and their scenes) for the tie."""
+    mlines, mref = [], []
+    for bi, ((head, runs), mt) in enumerate(zip(results, meta)):
+        if runs is None:
+            stats["compile_rejected"] += 1
+            ctx.extra.setdefault("compile_rejections", {})
+            msg = head[:60]
+            ctx.extra["compile_rejections"][msg] = ctx.extra["compile_rejections"].get(msg, 0) + 1
+            continue
+        stats["models"] += 1
+        for ri, j in enumerate(runs):
+            stats["runs"] += 1
+            rp = {"what": mt["what"], "kind": mt["kind"], "model_lines": mt["lines"], "run_index": ri,
+                  "replay": "feed 'model' + model_lines + 'end' + the state/flags lines + 'run' to the c14_pairs harness"}
+            if "states" in mt:
+                st = mt["states"][ri // len(mt["flags"])]
+                rp["qpos"], rp["mocap_pos"], rp["mocap_quat"] = st
+                rp["flags"] = mt["flags"][ri % len(mt["flags"])]
+
+            def report(k, w, mt=mt, rp=rp):
+                fail(KEY_TOUCH if (mt["kind"] == "touch" and k.startswith("c14:missing-pair")) else k, w + " [" + mt["what"] + "]", rp)
+            if "error" in j:
+                stats["engine_errors"] += 1
+                scene_oracle(j, report)
+                continue
+            if ri == 0:
+                for key, v in (("bodies_hist", j["nbody"]), ("geoms_hist", j["ngeom"])):
+                    bk = "<=4" if v <= 4 else "<=8" if v <= 8 else "<=16" if v <= 16 else "<=32" if v <= 32 else ">32"
+                    stats[key][bk] = stats[key].get(bk, 0) + 1
+            stats["narrowphase_calls"] += len(j["calls"])
+            stats["contacts"] += len(j["contacts"])
+            stats["runs_with_explicit_pairs"] += 1 if j["npair"] else 0
+            stats["runs_with_excludes"] += 1 if j["nexclude"] else 0
+            scene_oracle(j, report)
+            if j["enable"] & E_SLEEP or j["nflex"]:
+                continue
+            mlines.append(scene_line(j))
+            mref.append((j, rp))
+        # mid-phase on/off must give the same active contacts
+        if "flags" in mt and runs:
+            nf = len(mt["flags"])
+            for s0 in range(0, len(runs) - nf + 1, nf):
+                a, b = runs[s0], runs[s0 + 1]
+                if "error" in a or "error" in b or a["warn_contactfull"] or b["warn_contactfull"]:
+                    continue
+                # (the *order* may differ: contactcompare sorts mid-phase contacts by the type-ordered (geom[0], geom[1]),
+                #  which is not the all-to-all push order; only determinism of the order is claimed)
+                sa, sb = sorted(active_seq(a)), sorted(active_seq(b))
+                if sa != sb:
+                    what = ("active contacts differ between mid-phase enabled and disabled: only with mid-phase %s, only without %s"
+                            % (sorted(set(sa) - set(sb))[:3], sorted(set(sb) - set(sa))[:3]))
+                    fail("c14:midphase-drops-pair", what + " [" + mt["what"] + "]",
+                         {"what": mt["what"], "model_lines": mt["lines"], "state": mt["states"][s0 // nf], "flags": mt["flags"]})
+    return mlines, mref
+
+
 def run(ctx):
     thorough = ctx.tier == "thorough"
     rng = ctx.rng
@@ -841,65 +919,11 @@ def run(ctx):
 
     # ---------------------------------------------------------------- (3) scenes
     nscene = 600 if thorough else 70
-    blocks, meta = [], []
-    for kind, what, L in directed_scenes():
-        blocks.append(["model"] + L + ["end", "flags 0 0", "run"])
-        meta.append({"kind": kind, "what": what, "lines": L})
-    for s in range(nscene):
-        sc = gen_scene(rng, big=(s % 7 == 0))
-        states = [scene_state(rng, sc) for _ in range(3 if thorough else 2)]
-        fl = [(sc.disable & ~D_MIDPHASE, sc.enable), (sc.disable | D_MIDPHASE, sc.enable)]
-        blocks.append(scene_block(sc.lines, states, fl))
-        meta.append({"kind": "random", "what": "generated scene %d" % s, "lines": sc.lines, "states": states, "flags": fl})
-    results = run_harness_scenes(ctx, impl, blocks)
-    mlines, mref = [], []
     stats = {"models": 0, "compile_rejected": 0, "runs": 0, "narrowphase_calls": 0, "contacts": 0, "midphase_groups": 0,
-             "runs_with_explicit_pairs": 0, "runs_with_excludes": 0, "engine_errors": 0}
-    for bi, ((head, runs), mt) in enumerate(zip(results, meta)):
-        if runs is None:
-            stats["compile_rejected"] += 1
-            ctx.extra.setdefault("compile_rejections", {})
-            msg = head[:80]
-            ctx.extra["compile_rejections"][msg] = ctx.extra["compile_rejections"].get(msg, 0) + 1
-            continue
-        stats["models"] += 1
-        for ri, j in enumerate(runs):
-            stats["runs"] += 1
-            rp = {"what": mt["what"], "model_lines": mt["lines"], "run_index": ri,
-                  "replay": "feed 'model' + model_lines + 'end' + the state/flags lines + 'run' to the c14_pairs harness"}
-            if "states" in mt:
-                st = mt["states"][ri // len(mt["flags"])]
-                rp["qpos"], rp["mocap_pos"], rp["mocap_quat"] = st
-                rp["flags"] = mt["flags"][ri % len(mt["flags"])]
-            if "error" in j:
-                stats["engine_errors"] += 1
-                scene_oracle(j, lambda k, w: fail(k, w + " [" + mt["what"] + "]", rp))
-                continue
-            j["o_margin"] = j.get("o_margin", 0.0)
-            stats["narrowphase_calls"] += len(j["calls"])
-            stats["contacts"] += len(j["contacts"])
-            stats["runs_with_explicit_pairs"] += 1 if j["npair"] else 0
-            stats["runs_with_excludes"] += 1 if j["nexclude"] else 0
-            scene_oracle(j, lambda k, w: fail(k, w + " [" + mt["what"] + "]", rp))
-            if j["enable"] & E_SLEEP or j["nflex"]:
-                continue
-            mlines.append(scene_line(j))
-            mref.append((j, rp))
-        # mid-phase on/off must give the same active contacts in the same order
-        if "flags" in mt and runs:
-            nf = len(mt["flags"])
-            for s0 in range(0, len(runs) - nf + 1, nf):
-                a, b = runs[s0], runs[s0 + 1]
-                if "error" in a or "error" in b or a["warn_contactfull"] or b["warn_contactfull"]:
-                    continue
-                # (the *order* may differ: contactcompare sorts mid-phase contacts by the type-ordered (geom[0], geom[1]),
-                #  which is not the all-to-all push order; only determinism of the order is claimed)
-                sa, sb = sorted(active_seq(a)), sorted(active_seq(b))
-                if sa != sb:
-                    what = ("active contacts differ between mid-phase enabled and disabled: only with mid-phase %s, only without %s"
-                            % (sorted(set(sa) - set(sb))[:3], sorted(set(sb) - set(sa))[:3]))
-                    fail("c14:midphase-drops-pair", what + " [" + mt["what"] + "]",
-                         {"what": mt["what"], "model_lines": mt["lines"], "state": mt["states"][s0 // nf], "flags": mt["flags"]})
+             "runs_with_explicit_pairs": 0, "runs_with_excludes": 0, "engine_errors": 0, "bodies_hist": {}, "geoms_hist": {}}
+    blocks, meta = gen_blocks(rng, nscene, 3 if thorough else 2, True)
+    results = run_harness_scenes(ctx, impl, blocks)
+    mlines, mref = judge_scenes(ctx, results, meta, fail, stats)
     # tie: model vs engine, scene by scene
     rcm, mouts, merr = ctx.run_lines([drv], mlines)
     if rcm != 0 or len(mouts) != len(mlines):
@@ -913,8 +937,11 @@ def run(ctx):
             bad.append({"line": l[:1500], "model": o[:600], "impl": why, "scene": rp["what"]})
         for hname in check_hypotheses(j, o):
             hyp_bad[hname.split("(")[0]] = hyp_bad.get(hname.split("(")[0], 0) + 1
-            if len(hyp_samples) < 3:
-                hyp_samples.append({"hypothesis": hname, "scene": rp["what"], "run_index": rp.get("run_index")})
+            if hname.startswith("BroadComplete"):
+                # the unmodelled makeAAMM / float-cast geometry: an oracle failure (not a tie failure)
+                fail(KEY_TOUCH if rp["kind"] == "touch" else "c14:broadphase-incomplete",
+                     "hypothesis %s fails: the narrow phase reports a contact for this geom pair but its bodies are neither in the "
+                     "init-loop class nor reported by mj_SAP on the AAMMs computed by makeAAMM [%s]" % (hname, rp["what"]), rp)
         stats["midphase_groups"] += o.count("M:")
     ctx.oblige("correspondence mj_broadphase output + narrow-phase candidate sequence of mj_collision vs Lean model (%d scene runs)"
                % len(mlines), "correspondence", not bad, json.dumps(bad[:3])[:1900])
@@ -926,15 +953,35 @@ def run(ctx):
     ctx.oblige("hypotheses of driver_eq_bruteforce_partial (WF: geom/body partition, pair signatures, sortedness, body masks, world "
                "weld; symmetric sphere test) hold on all %d scene runs" % len(mlines), "hypothesis-check", not wf_bad, json.dumps(wf_bad))
     ctx.extra["hypothesis_violations"] = hyp_bad
-    if hyp_bad.get("BroadComplete"):
-        fail("c14:broadphase-incomplete", "a geom pair for which the narrow phase reports a contact has bodies that are neither in the "
-             "init-loop class nor reported by mj_SAP on the AAMMs of makeAAMM (%d runs)" % hyp_bad["BroadComplete"], hyp_samples[:3])
     if mlines:
         ctx.sample({"scene_op": mlines[len(mlines) // 2][:300] + " ...", "model_output": mouts[len(mlines) // 2][:200]})
     ctx.extra["scene_stats"] = stats
     for key, what, rp in found:
         ctx.oracle_failure(key, what, rp)
     ctx.extra["oracle_failures"] = len(found)
+
+    def directed(c):
+        """A proof / tie obligation broke but the oracle was silent: search harder (more and larger scenes, fresh randomness)."""
+        import random
+        r2 = random.Random(ctx.seed * 7919 + 14)
+        found2 = []
+        st2 = {"models": 0, "compile_rejected": 0, "runs": 0, "narrowphase_calls": 0, "contacts": 0, "midphase_groups": 0,
+               "runs_with_explicit_pairs": 0, "runs_with_excludes": 0, "engine_errors": 0, "bodies_hist": {}, "geoms_hist": {}}
+        b2, m2 = gen_blocks(r2, 500, 3, False)
+        judge_scenes(c, run_harness_scenes(c, impl, b2), m2, lambda k, w, rp: found2.append((k, w, rp)), st2)
+        lines2 = [gen_sap_case(r2, True)[1] for _ in range(8000)]
+        rc2, outs2, _ = c.run_lines([impl], lines2)
+        if rc2 == 0 and len(outs2) == len(lines2):
+            for l, o in zip(lines2, outs2):
+                r = sap_oracle(l, o) if o != "bad-op" else None
+                if r:
+                    found2.append((r[0], r[1], {"op": l[:3000], "mj_SAP_output": o[:500]}))
+        kn = {k["key"] for k in c.known()}
+        for k, w, rp in found2:
+            if k not in kn:
+                return {"key": k, "what": w, "replay": rp}
+        return None
+    ctx.directed_search = directed
     if thorough:
         ctx.leanchecker(["MjProof.Props.C14"])
 
